@@ -328,6 +328,28 @@ func (s *Sim) adminResult(a *adminReq, r dragonboat.RequestResult) {
 	}
 	s.ctx.Ev("admin.result:"+a.what+":"+kind, uint64(a.host.id))
 	s.ctx.Count("probe.admin_"+a.what+"_"+kind, 1)
+	switch a.what {
+	case "final-remove":
+		if len(s.finalAdminLog) < 300 {
+			s.finalAdminLog += fmt.Sprintf("remove via h%d: %s; ", a.host.id+1, kind)
+		}
+		if r.Completed() {
+			s.finalCCDone = true
+		}
+		return
+	case "final-snapshot":
+		if len(s.finalAdminLog) < 300 {
+			s.finalAdminLog += fmt.Sprintf("snapshot via h%d: %s; ", a.host.id+1, kind)
+		}
+		// Rejected: nothing was applied since the replica's last snapshot
+		if r.Completed() || r.Rejected() {
+			s.finalSnapDone = true
+			if r.Completed() {
+				s.orc.onSnapshotCompleted(a.host, r.SnapshotIndex())
+			}
+		}
+		return
+	}
 	if !r.Completed() {
 		if (r.Dropped() || r.Rejected()) && a.target != nil && (a.what == "add" || a.what == "addnv" || a.what == "addwitness") {
 			a.target.addIssued = false // certainly not applied
